@@ -22,11 +22,10 @@ open Drv_tmpl
          Calls of defined templates are expanded first.
      D3  a link element whose static rel (character references decoded, split on white space, lower-cased)
          contains both an allow-listed token (reviewed list) and stylesheet; failing attribute link.href
-     D4  a defined template called from two attribute-value sites with different static prefixes, one of them in
-         an attribute of the failing name
+     D4  a defined template called from two attribute-value sites with different static prefixes (or, on link
+         elements, different static rel values), one of them in an attribute of the failing name
      D13 the four characters that open an HTML comment inside a script element body in static text; failing
-         class = script data
-     D34 the failing attribute is poster or cite (class None in the reviewed policy: the string is only escaped) *)
+         class = script data *)
 
 (* ---------------------------------------------------------------- template text scanner *)
 type piece = Text of string | Act of string
@@ -222,16 +221,17 @@ let finding_d3 (inf : info) : bool =
        | Some rel -> let toks = rel_tokens rel in List.mem "stylesheet" toks && List.exists (fun x -> List.mem x allowed) toks
        | None -> false)) inf.tags
 
-(* (template name, attribute name, static prefix) of every call inside an attribute value *)
+(* (template name, attribute name, link rel + static prefix) of every call inside an attribute value *)
 let call_sites (inf : info) : (string * string * string) list =
   List.concat_map (fun t ->
       List.concat_map (fun s ->
+          let rel = match List.assoc_opt "rel" t.t_static_attrs with Some r when t.t_elem = "link" -> String.concat " " (rel_tokens r) | _ -> "" in
           let rec go pre = function
             | [] -> []
             | Static x :: rest -> go (pre ^ x) rest
             | Dyn a :: rest when is_call a -> (quoted_name a, s.s_attr, pre) :: go (pre ^ "\x00") rest
             | Dyn _ :: rest -> go (pre ^ "\x00") rest in
-          go "" s.s_items) t.t_sites) inf.tags
+          go (rel ^ "\x01") s.s_items) t.t_sites) inf.tags
 
 let finding_d4 (inf : info) (attr : string) : bool =
   let cs = call_sites inf in
@@ -283,11 +283,12 @@ let model_run (pre : V.n list) (post : V.n list) (v : V.value) =
 
 (* Some verdict when the template is  pre {{.}} post  with one plain value *)
 let correspondence (text : string) (wire : string) (outcome : string) (out : V.n list) : string option =
-  match pieces_of text with
-  | ([Text pre; Act "."; Text post] | [Text pre; Act "."] as ps) when not (starts "map:" wire) && not (starts "list:" wire) && wire <> "true" && wire <> "false" ->
-    let post = match ps with [_; _; Text p] -> p | _ -> "" in
-    ignore pre;
-    let pre = match ps with Text p :: _ -> p | _ -> "" in
+  let shape = match pieces_of text with
+    | [Text pre; Act "."; Text post] -> Some (pre, post)
+    | [Text pre; Act "."] -> Some (pre, "")
+    | _ -> None in
+  match shape with
+  | Some (pre, post) when not (starts "map:" wire) && not (starts "list:" wire) && wire <> "true" && wire <> "false" ->
     let m = model_run (bytes_of_string pre) (bytes_of_string post) (value_of_wire wire) in
     let m_outcome = match m with
       | Error c -> if c = -1 then "panic" else Printf.sprintf "escape:%d" c
@@ -360,7 +361,7 @@ let () =
           let inf = analyse text in
           let e = string_of_bytes e and a = string_of_bytes a in
           specfail id (Printf.sprintf "javascript_url_in:%s.%s%s" e a
-                         (tag_finding [("D34", a = "poster" || a = "cite"); ("D2", finding_d2 inf a); ("D4", finding_d4 inf a); ("D1", finding_d1 inf)]))
+                         (tag_finding [("D2", finding_d2 inf a); ("D4", finding_d4 inf a); ("D1", finding_d1 inf)]))
         | None ->
           match correspondence text wire outcome out with
           | Some m -> mismatch id m
